@@ -118,7 +118,7 @@ func checkC20(c *Ctx) error {
 			for k := 1; k <= G/4; k += G / 8 {
 				alpha = append(alpha, probe.Op{Op: "getctx", Name: s.Name, Ctx: k})
 			}
-			if s.Getter != nil && !s.IsTodo() {
+			if s.Getter != nil && !s.IsTodo() && (*s.Getter)[0] >= 'A' && (*s.Getter)[0] <= 'Z' {
 				alpha = append(alpha, probe.Op{Op: "getter", Name: *s.Getter})
 				// every typed accessor is used from several contexts (what it hands out in one context must never show up in another)
 				for k := 1; k <= G/4; k += G / 8 {
@@ -174,6 +174,35 @@ func checkC20(c *Ctx) error {
 		plans[id] = pl
 		units = append(units, &probe.Unit{ID: id, Cfg: conf, Files: gen.Split(r, conf, i%4), Ops: ops})
 	}
+	// configurations in which a declared-shared service reaches a contextual one (through an argument, a field, a call, a tag,
+	// a decorator argument): the tool has to refuse them (C05). Should it accept one, the container is run like the others -
+	// what it hands out in one context must still not contain a contextual instance of another
+	conflict := map[string]bool{}
+	for kind := 1; kind < ekCount; kind++ {
+		ek := [][]int{{0, kind}, {0, 0}}
+		conf := scopeGraphConfig(2, ek, []string{"shared", "contextual"})
+		id := fmt.Sprintf("k%04d", kind)
+		conflict[id] = true
+		var alpha []probe.Op
+		for k := 1; k <= G/4; k += G / 8 {
+			alpha = append(alpha, probe.Op{Op: "getctx", Name: "s0", Ctx: k}, probe.Op{Op: "getctx", Name: "s1", Ctx: k})
+		}
+		pl := &plan{}
+		var ops []probe.Op
+		for rd := 0; rd < rounds; rd++ {
+			r := rand.New(rand.NewSource(c.Seed*31 + int64(kind*10+rd)))
+			flat := make([]probe.Op, G*reps)
+			for k := range flat {
+				flat[k] = alpha[r.Intn(len(alpha))]
+			}
+			seed := c.Seed*977 + int64(kind*100+rd)
+			pl.flat = append(pl.flat, flat)
+			pl.seeds = append(pl.seeds, seed)
+			ops = append(ops, probe.Op{Op: "new"}, probe.Op{Op: "stress", G: G, Reps: reps, Seed: seed, Ops: flat})
+		}
+		plans[id] = pl
+		units = append(units, &probe.Unit{ID: id, Cfg: conf, Files: []probe.File{{Name: "gontainer.yaml", Content: conf.YAML()}}, Ops: ops})
+	}
 	probe.RaceReports = nil
 	if err := runUnits(c, lab, units, true); err != nil {
 		return err
@@ -208,6 +237,10 @@ func checkC20(c *Ctx) error {
 	for _, u := range units {
 		files := unitFiles(u)
 		if !u.Accepted {
+			if conflict[u.ID] {
+				c.Add("scope_conflict_configurations_refused_by_the_tool", 1)
+				continue
+			}
 			rejected(c, rejectReason(u), fmt.Sprintf("unit %s: %s", u.ID, rejectReason(u)), files)
 			continue
 		}
@@ -237,6 +270,52 @@ func checkC20(c *Ctx) error {
 			startOrders[fmt.Sprint(st.StartOrder)] = true
 			for _, p := range st.Panics {
 				c.Violate("panic-under-concurrency:"+sigWords(p), fmt.Sprintf("unit %s round %d: %s", u.ID, rd, p), files)
+			}
+			// nothing that is reachable from what one context was handed may be the contextual instance another context owns
+			{
+				ownerOf := map[int64]string{}
+				for key, by := range st.CtxSerials {
+					parts := strings.SplitN(key, ":", 2)
+					svc := ""
+					switch parts[0] {
+					case "getctx":
+						svc = parts[1]
+					case "getterctx":
+						if sv, _, _ := getterInfo(u.Cfg, parts[1]); sv != nil {
+							svc = sv.Name
+						}
+					}
+					if svc == "" || u.Cfg.Service(svc) == nil {
+						continue
+					}
+					eff := ref.EffectiveScope(u.Cfg, g, svc)
+					if svc == "lateCtx" || svc == "needsLate" {
+						eff = "contextual"
+					}
+					if eff != "contextual" {
+						continue
+					}
+					for lbl, ids := range by {
+						for _, id := range ids {
+							if id != 0 {
+								ownerOf[id] = lbl
+							}
+						}
+					}
+				}
+				for lbl, ids := range st.CtxReach {
+					for _, id := range ids {
+						if o, ok := ownerOf[id]; ok && o != lbl {
+							c.Violate("contextual-instance-reachable-from-another-context", fmt.Sprintf("unit %s round %d: instance %d is the contextual instance of context %s, and it is reachable from what context %s was handed", u.ID, rd, id, o, lbl), files)
+						}
+					}
+				}
+				c.Add("contexts_checked_for_foreign_contextual_instances", len(st.CtxReach))
+			}
+			if conflict[u.ID] {
+				c.Eval(fmt.Sprintf("%s/round%d/%s", u.ID, rd, filesKey(u)), true)
+				rd++
+				continue
 			}
 			// expected counters: the reference container executes the same multiset sequentially
 			seq := append(append([]probe.Op{}, pl.env...), probe.Op{Op: "new"}, c20Setup)
